@@ -16,6 +16,17 @@ pub fn check_packet(p: &RefPacket, case: &dyn Fn() -> Value) -> Vec<Finding> {
         let l = to_lib(p).map_err(|e| ("construct".to_string(), e))?;
         let plain = l.build_bytes_vec().map_err(|e| ("plain-build-error".to_string(), format!("{:?}", e)))?;
         let comp = l.build_bytes_vec_compressed().map_err(|e| ("compressed-build-error".to_string(), format!("build_bytes_vec_compressed failed: {:?}", e)))?;
+        // the writer-based compressed entry point behind a prefix (a TCP length, an earlier message)
+        for k in [2usize, 300] {
+            let mut cur = std::io::Cursor::new(vec![0xeeu8; k]);
+            cur.set_position(k as u64);
+            l.write_compressed_to(&mut cur).map_err(|e| ("compressed-writer-error".to_string(), format!("write_compressed_to at offset {}: {:?}", k, e)))?;
+            let v = cur.into_inner();
+            if v.len() < k || v[k..] != comp[..] {
+                let parsed_same = Packet::parse(&v[k.min(v.len())..]).map(|x| observe(&x)).ok() == Packet::parse(&plain).map(|x| observe(&x)).ok();
+                return Err((if parsed_same { "compressed-writer-bytes-differ".to_string() } else { "compressed-writer-at-offset-differs".to_string() }, format!("write_compressed_to into a cursor positioned at {} gives {} bytes, build_bytes_vec_compressed {} bytes; parses to the same packet: {}", k, v.len().saturating_sub(k), comp.len(), parsed_same)));
+            }
+        }
         let a = Packet::parse(&plain).map_err(|e| ("plain-unparseable".to_string(), format!("{:?}", e)))?;
         let b = Packet::parse(&comp).map_err(|e| ("compressed-unparseable".to_string(), format!("compressed output rejected: {:?} (len {})", e, comp.len())))?;
         Ok((observe(&a), observe(&b), plain.len(), comp.len()))
